@@ -4,7 +4,7 @@
    that it never shows up with the budget fuel_for, and measures the real parser's step counts). *)
 From Coq Require Import List NArith ZArith Bool String Ascii Lia.
 Require Import Base.Common Gen.LexTable Lex.Model Lex.Invariants Lex.ImplFacts Lex.C04Proofs Lex.C07Proofs
-               Cur.Model Tree.Value Tree.Helpers Gen.Static Parse.Prim Parse.Model Parse.Sweep Parse.Suffix Parse.Fuel.
+               Cur.Model Tree.Value Tree.Helpers Gen.Static Parse.Prim Parse.Model Parse.Sweep Parse.Suffix Parse.Fuel Parse.Mono.
 Import ListNotations.
 Open Scope string_scope.
 
@@ -47,6 +47,17 @@ Theorem C07_script_total : forall d ts,
   match statements_loop (Datatypes.S (List.length ts)) (fuel_for ts) d ts [] with Ok _ => True | Err e => lib_err e = true end.
 Proof. exact script_total. Qed.
 
+(* 2b. The answer does not depend on the budget: any fuel at or above fuel_for gives the same result (Parse/Mono.v: a result other
+   than "out of fuel" is unchanged by more fuel - one more sweep over every parse function), so with termination the fuelled model
+   denotes ONE total function of (entry point, dialect, tokens).  The same for the statement loop and its two budgets. *)
+Theorem C07_answer_independent_of_fuel : forall n f d a ts, (fuel_for ts <= n)%nat -> run n f d a ts = run (fuel_for ts) f d a ts.
+Proof. exact run_fuel_independent. Qed.
+Theorem C07_more_fuel_same_answer : forall n m f d a ts, (n <= m)%nat -> run n f d a ts <> Err OutOfFuel -> run m f d a ts = run n f d a ts.
+Proof. exact run_fuel_stable. Qed.
+Theorem C07_script_answer_independent_of_fuel : forall n fuel d ts, (Datatypes.S (List.length ts) <= n)%nat -> (fuel_for ts <= fuel)%nat ->
+  statements_loop n fuel d ts [] = statements_loop (Datatypes.S (List.length ts)) (fuel_for ts) d ts [].
+Proof. exact script_fuel_independent. Qed.
+
 (* 3. A rejected input leaves no trace: the models are pure functions of their arguments -- there is no state a failed
    call could leave behind (determinism is the only thing to state) *)
 Theorem C07_no_trace : forall fuel f d a ts r1 r2, run fuel f d a ts = r1 -> run fuel f d a ts = r2 -> r1 = r2.
@@ -70,3 +81,6 @@ Print Assumptions C07_parser_total.
 Print Assumptions C07_script_total.
 Print Assumptions C07_no_trace.
 Print Assumptions C07_example.
+Print Assumptions C07_answer_independent_of_fuel.
+Print Assumptions C07_more_fuel_same_answer.
+Print Assumptions C07_script_answer_independent_of_fuel.
